@@ -1886,10 +1886,12 @@ impl<'arena> PrettyFormatter<'arena> {
     ) -> ScopeTelescope<&'arena ExistentialParameter> {
         let layers = std::iter::successors(Some(first), |current| {
             let parameter = current.parameters.last()?;
-            let Term::Exists(nested) = &self.arena.terms[&current.body] else {
+            // As for the other scopes: an elided singleton group does not separate.
+            let body = self.transparent_term_group(current.body);
+            let Term::Exists(nested) = &self.arena.terms[&body] else {
                 return None;
             };
-            self.scope_boundary_allows_merging(parameter.binder, current.body).then_some(nested)
+            self.scope_boundary_allows_merging(parameter.binder, body).then_some(nested)
         })
         .collect::<Vec<_>>();
         let body = layers.last().expect("existential telescopes are nonempty").body;
